@@ -2,7 +2,8 @@
    (sparse/numba_backend/_coo/core.py: enable_caching, transpose, reshape, tocsr, tocsc).
 
    self._cache = defaultdict(lambda: deque(maxlen=N))      one deque per operation name
-   lookup:   for k, value in self._cache[name]: if k == key: return value      first match, oldest first
+   lookup:   for k, value in tuple(self._cache[name]): if k == key: return value
+             (a snapshot of the deque, or the deque itself: same entries, oldest first; first match wins)
    store:    self._cache[name].append((key, result))      drops the oldest entry beyond maxlen
    identity short-cuts and argument errors happen BEFORE the lookup;
    tocsr/tocsc memoise in the attributes _csr/_csc.
